@@ -107,8 +107,22 @@ extern uint64_t w_q; /* where the element that was at g_p is afterwards (ghost o
 
 /* --------------------------------------------------------------------------------- build_heap */
 /* writes the sentinel behind the last element and establishes heap order at every node */
+/* In the TU that also holds huff_codes.c the call sites owe build_heap keys with pairwise distinct symbol ids (low 16
+ * bits): ghost pair g_i < g_j.  That is what the consumers of the tree need (code_list is a permutation of the symbols)
+ * and what audit mutant I6 (dummy second symbol == the used one) breaks.  Call-site obligation only: the enforce
+ * harness of build_heap lives in the TU without HEAP_WITH_CODES, where the clause is empty. */
+#ifdef HEAP_WITH_CODES
+extern uint64_t g_i, g_j;
+extern _Bool g_dist; /* set by the E_ hooks of the initialisers that carry the distinctness invariant */
+#define IH_SYM(k) ((uint64_t) (uint16_t) (k))
+#define HP_DISTINCT_REQ                                                                            \
+        __CPROVER_requires((g_dist && 1 <= g_i && g_i < g_j && g_j <= heap_size) ==> IH_SYM(heap[g_i]) != IH_SYM(heap[g_j]))
+#else
+#define HP_DISTINCT_REQ
+#endif
 #define C_build_heap                                                                               \
         __CPROVER_requires(heap_size <= HP_MAX && g_p <= heap_size)                                \
+        HP_DISTINCT_REQ                                                                            \
         HP_MEM_REQ(heap, heap_size)                                                                \
         __CPROVER_ensures(w_q <= heap_size && (__CPROVER_old(g_p) >= 1 ==> w_q >= 1) && heap[w_q] == __CPROVER_old(heap[g_p])) \
         __CPROVER_ensures(heap[heap_size + 1] == HP_SENT)                                          \
@@ -180,7 +194,7 @@ extern uint64_t g_s;
         __CPROVER_requires(__CPROVER_is_fresh(heap_space, sizeof(struct heap_tree)))               \
         __CPROVER_requires(__CPROVER_is_fresh(histogram, hist_size * sizeof(T)))                   \
         __CPROVER_ensures(heap_space->heap[__CPROVER_return_value + 1] == HP_SENT)                 \
-        __CPROVER_assigns(__CPROVER_object_whole(heap_space), g_p, w_q)
+        __CPROVER_assigns(__CPROVER_object_whole(heap_space), g_p, w_q, g_dist)
 #define IH_FILLED __CPROVER_ensures(2 <= __CPROVER_return_value && __CPROVER_return_value <= (hist_size < 2 ? 2 : hist_size))
 #define C_init_heap32 IH_COMMON(uint32_t) IH_FILLED __CPROVER_ensures(IH_PRESENT(histogram[g_s] != 0))
 #define C_init_heap64 IH_COMMON(uint64_t) IH_FILLED __CPROVER_ensures(IH_PRESENT(histogram[g_s] != 0))
@@ -190,16 +204,31 @@ extern uint64_t g_s;
 #define C_init_heap64_complete                                                                     \
         IH_COMMON(uint64_t) __CPROVER_ensures(__CPROVER_return_value == hist_size)                 \
         __CPROVER_ensures(IH_PRESENT(1))
-#define IH_E g_p = 0;
+#define IH_E g_p = 0; g_dist = 1;
 /* g_p == position of the ghost symbol's key once the fill loop has passed it (0 = it takes no part) */
 #define IH_TRACK(done, takes_part)                                                                 \
         ((g_s < hist_size && (done) && (takes_part)) ? (1 <= g_p && g_p <= heap_size &&            \
                  heap_space->heap[g_p] == IH_KEY(histogram[g_s], g_s)) : g_p == 0)
-#define IH_LOOP(lo, hi, takes_part) IH_LOOPX(lo, hi, takes_part, 1)
+/* symbol ids of the keys written so far: below i, strictly increasing with the position (ghost pair g_i < g_j), the
+ * key at 1 is symbol 0's whenever symbol 0 takes part, and a key of symbol 0 is only there if symbol 0 takes part in
+ * the first loop (histogram[0] != 0) -- together they decide the "exactly one symbol used" fix-up */
+#define IH_DISTINCT_INV                                                                            \
+        __CPROVER_loop_invariant((1 <= g_i && g_i <= heap_size) ==> IH_SYM(heap_space->heap[g_i]) < i) \
+        __CPROVER_loop_invariant((1 <= g_i && g_i < g_j && g_j <= heap_size) ==>                   \
+                                 IH_SYM(heap_space->heap[g_i]) < IH_SYM(heap_space->heap[g_j]))    \
+        __CPROVER_loop_invariant((i > 0 && histogram[0] != 0) ==> (heap_size >= 1 && IH_SYM(heap_space->heap[1]) == 0))
+#define IH_ZERO_ONLY_IF_USED ((heap_size >= 1 && IH_SYM(heap_space->heap[1]) == 0) ==> histogram[0] != 0)
+#define IH_LOOP(lo, hi, takes_part) IH_LOOPX(lo, hi, takes_part, IH_ZERO_ONLY_IF_USED)
+#define IH_LOOPN(lo, hi, takes_part)                                                               \
+        __CPROVER_assigns(i, heap_size, g_p, __CPROVER_object_whole(heap_space))                   \
+        __CPROVER_loop_invariant((lo) <= i && i <= (hi) && heap_size <= i)                         \
+        __CPROVER_loop_invariant(IH_TRACK(g_s < i, takes_part))                                    \
+        __CPROVER_decreases((hi) - i)
 #define IH_LOOPX(lo, hi, takes_part, extra)                                                        \
         __CPROVER_assigns(i, heap_size, g_p, __CPROVER_object_whole(heap_space))                   \
         __CPROVER_loop_invariant((lo) <= i && i <= (hi) && heap_size <= i && (extra))              \
         __CPROVER_loop_invariant(IH_TRACK(g_s < i, takes_part))                                    \
+        IH_DISTINCT_INV                                                                            \
         __CPROVER_decreases((hi) - i)
 #define IH_HOOK(takes_part)                                                                        \
         if (i == g_s && (takes_part))                                                              \
@@ -214,8 +243,10 @@ extern uint64_t g_s;
 #define E_init_heap64_complete IH_E
 #define L_init_heap64_complete_1 IH_LOOPX(0, hist_size, 1, heap_size == i)
 #define H_init_heap64_complete_1 IH_HOOK(1)
-#define E_init_heap64_semi_complete IH_E
-#define L_init_heap64_semi_complete_1 IH_LOOP(0, complete_start, histogram[g_s] != 0)
+#define E_init_heap64_semi_complete g_p = 0; g_dist = 0;
+/* semi_complete does not carry the distinctness invariant (g_dist = 0): with complete_start == 0 && hist_size == 1 &&
+ * histogram[0] == 0 its fix-up does duplicate symbol 0; the one call site passes (LIT_LEN, 257), far from it */
+#define L_init_heap64_semi_complete_1 IH_LOOPN(0, complete_start, histogram[g_s] != 0)
 #define H_init_heap64_semi_complete_1 IH_HOOK(histogram[g_s] != 0)
 #define L_init_heap64_semi_complete_2                                                              \
         __CPROVER_assigns(i, heap_size, g_p, __CPROVER_object_whole(heap_space))                   \
